@@ -109,6 +109,43 @@ theorem copBuild_wf (ck : CopK) (s p : Term) (hs : wfOut s = true) (hp : wfOut p
     wfOut (ck.build s p) = true := by
   cases ck <;> simp [CopK.build, wfOut, wfOuts, Terms.isEmpty, hs, hp]
 
+theorem finishCompound_wf (F : EFormat) (ck : ConnK) (ts : List Term) (c3 : Cur) (t : Term) (c' : Cur)
+    (hne : ts ≠ []) (hts : ts.all wfOut = true) (h : F.finishCompound ck ts c3 = .ok (t, c')) : wfOut t = true := by
+  unfold finishCompound at h
+  cases ck with
+  | operatorUnsupported => exact absurd h (raise_not_ok _ _)
+  | set k =>
+    simp at h; rw [← h.1]
+    simp only [wfOut, isEmpty_ofList, wfOuts_ofList, Bool.and_eq_true, Bool.not_eq_true',
+      List.isEmpty_eq_false_iff]
+    exact ⟨mkSetSem_nonempty ts hne, mkSetSem_all' wfOut ts hts⟩
+  | seq k =>
+    simp at h; rw [← h.1]
+    simp only [wfOut, isEmpty_ofList, wfOuts_ofList, Bool.and_eq_true, Bool.not_eq_true',
+      List.isEmpty_eq_false_iff]
+    exact ⟨hne, hts⟩
+  | img k =>
+    simp only at h
+    split at h
+    · next i ts' hex =>
+      simp at h; rw [← h.1]
+      have sp := extractPlaceholder_spec ts i ts' hex
+      simp only [wfOut, length_ofList, wfOuts_ofList, Bool.and_eq_true, decide_eq_true_eq]
+      refine ⟨sp.1, ?_⟩
+      rw [List.all_eq_true] at hts ⊢
+      exact fun x hx => hts x (sp.2 x hx)
+    · exact absurd h (raise_not_ok _ _)
+  | neg =>
+    simp only at h
+    split at h
+    · simp at h; rw [← h.1]; simpa [wfOut] using hts
+    · exact absurd h (raise_not_ok _ _)
+  | diff k =>
+    simp only at h
+    split at h
+    · simp at h; rw [← h.1]; simpa [wfOut] using hts
+    · exact absurd h (raise_not_ok _ _)
+
 mutual
   theorem parseTerm_wf (F : EFormat) : ∀ (fuel : Nat) (c : Cur) (t : Term) (c' : Cur),
       F.parseTerm fuel c = .ok (t, c') → wfOut t = true
@@ -180,11 +217,9 @@ mutual
       split at h
       · exact absurd h (raise_not_ok _ _)
       · next kw ck _ =>
-        cases ck with
-        | operatorUnsupported => exact absurd h (raise_not_ok _ _)
-        | set k =>
-          simp only at h
-          cases hr : F.parseTerms fuel F.compR ((F.skipAndSpaces c F.compL).skip kw) [] with
+        split at h
+        · exact absurd h (raise_not_ok _ _)
+        · cases hr : F.parseTerms fuel F.compR ((F.skipAndSpaces c F.compL).skip kw) [] with
           | ok p =>
             obtain ⟨ts, c3⟩ := p
             rw [hr] at h
@@ -193,82 +228,8 @@ mutual
             split at h
             · exact absurd h (raise_not_ok _ _)
             · next hne =>
-              simp at h; rw [← h.1]
               have hne' : ts ≠ [] := by intro he; simp [he] at hne
-              simp only [wfOut, isEmpty_ofList, wfOuts_ofList, Bool.and_eq_true, Bool.not_eq_true',
-                List.isEmpty_eq_false_iff]
-              exact ⟨mkSetSem_nonempty ts hne', mkSetSem_all' wfOut ts hts⟩
-          | err e => rw [hr] at h; simp at h
-          | panic => rw [hr] at h; simp at h
-          | fuel => rw [hr] at h; simp at h
-        | seq k =>
-          simp only at h
-          cases hr : F.parseTerms fuel F.compR ((F.skipAndSpaces c F.compL).skip kw) [] with
-          | ok p =>
-            obtain ⟨ts, c3⟩ := p
-            rw [hr] at h
-            have hts := parseTerms_wf F fuel F.compR _ [] ts c3 (by simp) hr
-            simp only at h
-            split at h
-            · exact absurd h (raise_not_ok _ _)
-            · next hne =>
-              simp at h; rw [← h.1]
-              simp only [wfOut, isEmpty_ofList, wfOuts_ofList, Bool.and_eq_true, Bool.not_eq_true']
-              exact ⟨by simpa using hne, hts⟩
-          | err e => rw [hr] at h; simp at h
-          | panic => rw [hr] at h; simp at h
-          | fuel => rw [hr] at h; simp at h
-        | img k =>
-          simp only at h
-          cases hr : F.parseTerms fuel F.compR ((F.skipAndSpaces c F.compL).skip kw) [] with
-          | ok p =>
-            obtain ⟨ts, c3⟩ := p
-            rw [hr] at h
-            have hts := parseTerms_wf F fuel F.compR _ [] ts c3 (by simp) hr
-            simp only at h
-            split at h
-            · exact absurd h (raise_not_ok _ _)
-            · split at h
-              · next i ts' hex =>
-                simp at h; rw [← h.1]
-                have sp := extractPlaceholder_spec ts i ts' hex
-                simp only [wfOut, length_ofList, wfOuts_ofList, Bool.and_eq_true, decide_eq_true_eq]
-                refine ⟨sp.1, ?_⟩
-                rw [List.all_eq_true] at hts ⊢
-                exact fun x hx => hts x (sp.2 x hx)
-              · exact absurd h (raise_not_ok _ _)
-          | err e => rw [hr] at h; simp at h
-          | panic => rw [hr] at h; simp at h
-          | fuel => rw [hr] at h; simp at h
-        | neg =>
-          simp only at h
-          cases hr : F.parseTerms fuel F.compR ((F.skipAndSpaces c F.compL).skip kw) [] with
-          | ok p =>
-            obtain ⟨ts, c3⟩ := p
-            rw [hr] at h
-            have hts := parseTerms_wf F fuel F.compR _ [] ts c3 (by simp) hr
-            simp only at h
-            split at h
-            · exact absurd h (raise_not_ok _ _)
-            · split at h
-              · simp at h; rw [← h.1]; simpa [wfOut] using hts
-              · exact absurd h (raise_not_ok _ _)
-          | err e => rw [hr] at h; simp at h
-          | panic => rw [hr] at h; simp at h
-          | fuel => rw [hr] at h; simp at h
-        | diff k =>
-          simp only at h
-          cases hr : F.parseTerms fuel F.compR ((F.skipAndSpaces c F.compL).skip kw) [] with
-          | ok p =>
-            obtain ⟨ts, c3⟩ := p
-            rw [hr] at h
-            have hts := parseTerms_wf F fuel F.compR _ [] ts c3 (by simp) hr
-            simp only at h
-            split at h
-            · exact absurd h (raise_not_ok _ _)
-            · split at h
-              · simp at h; rw [← h.1]; simpa [wfOut] using hts
-              · exact absurd h (raise_not_ok _ _)
+              exact finishCompound_wf F ck ts c3 t c' hne' hts h
           | err e => rw [hr] at h; simp at h
           | panic => rw [hr] at h; simp at h
           | fuel => rw [hr] at h; simp at h
